@@ -12,7 +12,7 @@ def add(pid, text, note, technique, ref, level=MC, engine='tlc+replay'):
 
 add('C01', "TLC evaluates the TLA+ documented-semantics operator PegSem!Parse on every (grammar, text) of an exhaustive small universe "
     "(all expressions with <=2 operator nodes over 9 leaves) plus seeded random core-language grammars and the constructs the documentation "
-    "defines by expansion (rule includes, based rules, @override) x all texts up to a length bound; "
+    "defines by expansion (rule includes, based rules, @override) and a slice of the cut-placement universe of C05 x all texts up to a length bound; "
     "each expected outcome (accept/reject, end offset, AST) is replayed into the real compiled model. Exhaustive within the stated bounds, "
     "so a change to AST assembly, choice order, repetition, lookahead or whitespace placement that alters any case of the universe is reported. "
     "Code->spec: executions of the real engine recorded through the Tracer seam (enter/ok/fail/cut/match events) are validated by TLC against "
@@ -33,9 +33,9 @@ add('C02', "For every grammar of the universe TLC evaluates PegSem!Parse and mod
     "TLC against PegTrace in the matching flavour.",
     "Trusted: TLC, Python re, projections in harness/absgrammar.py. A departure common to both back-ends is C01's verdict, not C02's.",
     "TLA+ specs PegSem (oracle) and PegMachine in model and generated-parser flavours model-checked by TLC + spec->code replay into generated parsers and the model", "5 C02, 0.4")
-add('C03', "TLC evaluates PegSem!Parse (seed growing with a dynamic head, docs/left_recursion.rst) on 16 families of layered left-recursive grammars "
+add('C03', "TLC evaluates PegSem!Parse (seed growing with a dynamic head, docs/left_recursion.rst) on 18 families of layered left-recursive grammars "
     "(direct, aliased, mutual, optional-prefixed, named, right-recursive mixes, unary prefix, a cut scoped to an inline operator choice with a second "
-    "left-recursive alternative, cycles entered after an optional / closure prefix) "
+    "left-recursive alternative, cycles entered after an optional / closure prefix, seed alternatives that build a list with @+:) "
     "under all 24 assignments of rule names x every operator/operand string up to the bound; every outcome (accept/reject, end, left-nested AST) "
     "is replayed into the real model under recursion-limit and wall-clock guards (RecursionError/timeout = violation). Exhaustive within bounds. "
     "Recorded traces of the real engine (seed hits, growth rounds, memo guards) are validated by TLC against PegTrace/PegMachine, and PegMachine "
@@ -43,7 +43,7 @@ add('C03', "TLC evaluates PegSem!Parse (seed growing with a dynamic head, docs/l
     "must equal the engine on every case.",
     "Trusted: TLC, projections. KF-C03-1 (static leader) is recognised by family + name order + direction of the mismatch.",
     "TLA+ spec PegSem (left-recursion seeds) evaluated by TLC, exhaustive family universe, spec->code replay; recorded traces validated against PegTrace/PegMachine", "5 C03, 3.3, 3.5")
-add('C05', "18 skeletons x a cut inserted at every position of every sequence x every text up to the bound: TLC evaluates PegSem!Parse, whose cut scopes "
+add('C05', "21 skeletons (incl. an optional whose whole body is a closure / optional / join - the shapes Grammar.optimized() rewrites) x a cut inserted at every position of every sequence x every text up to the bound: TLC evaluates PegSem!Parse, whose cut scopes "
     "are exactly the docs' equivalences (A->[x] == B->x|e, {x} == B->xB|e, join == e {s ~ e}); each outcome is replayed into the real parser. "
     "A lost or leaked cut flag changes accept/reject or the end position of some enumerated case. Exhaustive within bounds. "
     "Recorded traces (cut events included) of the real engine are validated by TLC against PegTrace/PegMachine; PegMachine is model-checked on a "
@@ -65,7 +65,7 @@ add('C04', "(1) spec/PegMachine.tla is the implementation-shaped small-step mach
 add('C06', "PegSem carries the action family as a behaviour constant (identity, tagging, FailedSemantics on a predicate, raise); TLC evaluates it for "
     "every (grammar, text); model and generated parser are run with 16 concrete semantics objects (10 exception types, _default only, declared "
     "parameters) and compared: value flow, alternatives after FailedSemantics, exception type/object reaching the caller, identity == no semantics, "
-    "@nomemo call counts == invocations (memoization-off count), memoized counts <= that. Code->spec: executions with the stateless members of the "
+    "@nomemo call counts == invocations (memoization-off count), memoized counts <= that; the tagging semantics is also supplied in objects that are falsy, unhashable, or equal to an object used before (through model.parse, generated parsers and tatsu.parse): the object's own truth value, hash and equality must play no part. Code->spec: executions with the stateless members of the "
     "family are recorded and validated by TLC against PegTrace: a non-memoizable (@nomemo) rule must show a body evaluation after every entry, a "
     "memoized rule may replay only what an earlier evaluation at that (position, rule) produced, FailedSemantics included.",
     "Trusted: TLC, projections. Action call counts are compared with the memoization-off run of the same parser, not with a spec count.",
@@ -94,9 +94,16 @@ add('C18', "spec/ParProc.tla (one action per step of executor_pmap, environment 
     "every completion order x every raising subset, NT<=5(6), windows 2-4, modes window/all/seq/single; invariants NoDup, NoLoss, ExactlyOnce, "
     "SameAsSequential, WindowBound, CapturedNeverBlocks and liveness Finishes. The dumped state graphs are covered edge by edge with behaviours "
     "that are replayed through the real executor_pmap (non-forking ProcessPoolExecutor subclass, scheduled as_completed), comparing submitted set, "
-    "as_completed snapshot, yielded result and captured exception after every step; parproc() is run with real pools in all modes, also after an interrupted run.",
-    "Trusted: TLC, the deterministic executor (task functions run synchronously at Complete(t)). Worker-process crashes and KeyboardInterrupt inside the parallel loop are not modelled.",
-    "TLA+ spec ParProc model-checked by TLC (safety + liveness) + state-graph behaviours replayed into the real loop", "5 C18, 3.7")
+    "as_completed snapshot, yielded result and captured exception after every step; parproc() is run with real pools in all modes, also after an interrupted run. "
+    "The specification also carries the stop event of a call (the consumer cancelling after any result: Cancel / Resume; CancelledSound, "
+    "NoSubmitAfterCancel; exactly-once is claimed for runs that are never cancelled). Code->spec: executions of parproc() / parallel_proc() over REAL thread and "
+    "process pools (whatever completion order the OS produces; payloads as lists and generators; the consumer cancelling after its k-th result; a second loop "
+    "alive and cancelled at the same time) are recorded through wrappers around the executor classes and as_completed and validated by TLC against "
+    "spec/ParProcTrace.tla: every logged submit / snapshot / observe / yield / cancel must be the specification's next step, worker completions are inferred, "
+    "ParProc's invariants are evaluated in every state of every observed execution, and corrupted copies of the traces must be rejected.",
+    "Trusted: TLC, the deterministic executor (task functions run synchronously at Complete(t)). Worker-process crashes and KeyboardInterrupt inside the parallel loop are not modelled. "
+    "KF-C18-1 (intermittent failure of the manager proxy of the stop event inside a pool worker) is printed when it occurs.",
+    "TLA+ spec ParProc model-checked by TLC (safety + liveness, with cancellation) + state-graph behaviours replayed into the real loop + executions over real pools validated against ParProcTrace", "5 C18, 3.7, 0.5")
 
 add('C19', "spec/PacketCodec.tla transcribes the pack/unpack layers (run-length, JSON string literal, class-key escape, tty escape) over the alphabet "
     "of the characters the encoding itself uses; TLC checks the run-length round-trip law for every string up to the bound and evaluates per-layer "
@@ -110,10 +117,10 @@ add('C19', "spec/PacketCodec.tla transcribes the pack/unpack layers (run-length,
 
 add('C20', "spec/Sgr.tla models SGR parameter assembly, wrapping, the ANSI_RE stripping automaton, the attribute reader of Style.from_raw and the "
     "colour gate over an abstract alphabet; TLC checks StripLaw, LenLaw, ParseLaw, OffLaw for every style of the domain (modifier sets x 16/bright/"
-    "256/RGB foregrounds and backgrounds) x every ESC-free text up to the bound x every gate combination, and prints the expected output of "
+    "256/RGB foregrounds and backgrounds) x every ESC-free text up to the bound x every gate combination (override x NO_COLOR x FORCE_COLOR x policy stream stdout/stderr x isatty of each stream), and prints the expected output of "
     "every point; each is concretised (wide, combining, brace, colon, backslash, quote) and replayed: exact escaped output, descape/len, 11 format "
-    "specifications through Style(fmt=), apply(fmt=) and format(), colour-off output, repr/from_raw round trip, NO_COLOR/FORCE_COLOR/isatty gate, "
-    "and coloured-then-uncoloured error rendering.",
+    "specifications through Style(fmt=), apply(fmt=) and format(), colour-off output, repr/from_raw round trip, NO_COLOR/FORCE_COLOR/isatty gate (Color() on stdout, Color.stderr() on stderr), "
+    "coloured-then-uncoloured error rendering, and tag markup rendered under an enabled, then a disabled, then an enabled policy.",
     "Trusted: TLC; Python's format(text, spec) as the oracle for the formatted text; character classes stand for all of Unicode (exploration beyond them).",
     "TLA+ spec Sgr checked by TLC (laws on the abstract alphabet) + every point replayed into Style", "5 C20, 3.7")
 
@@ -128,8 +135,8 @@ add('C17', "spec/SafeEval.tla states the property's policy over abstract express
     "TLA+ specs SafeEval (policy, exhaustive trees) and ConstLoop (model-checked) + concretised replay over all builtins of the interpreter", "5 C17, 3.7")
 
 add('C16', "spec/LeftRec.tla evaluates PegGrammar's left-call relation (Nullable, LeftCalls, OnLeftCycle, cycle components) on every rule graph of "
-    "the universe (all 1-rule, a deterministic slice of the 2-rule and a sample of the 3-rule grammars whose bodies are 1-2 options [prefix] target; "
-    "all of them in the thorough tier) and TLC checks the laws of the relation; each grammar is compiled with left recursion off (GrammarError <=> "
+    "the universe (all 1-rule, a deterministic slice of the 2-rule and a sample of the 3-rule grammars whose bodies are 1-2 options [prefix] target, the prefix being none, an optional, "
+    "a closure, a positive closure, a nullable rule call, or a positive join / gather with a nullable or a non-nullable element; a larger deterministic slice in the thorough tier) and TLC checks the laws of the relation; each grammar is compiled with left recursion off (GrammarError <=> "
     "some rule on a left cycle) and on (rules on no cycle memoized and unmarked; every cycle component has a leader, read back from the model), and a "
     "battery of short inputs is parsed under a recursion limit and wall-clock guard (RecursionError / timeout = violation). Cycles hidden behind a call to "
     "a rule that can match empty are bounded by a memo guard: on a family of such grammars with a cut placed in an optional / closure / lookahead / group / "
@@ -142,13 +149,20 @@ add('C10', "spec/ApiHistory.tla models the compile cache, the shared grammar obj
     "model.parse on earlier handles, valid and failing; three grammars, one of them with a rule type named like a grammar-model class) and refutes them for the former design (kept as configuration AsIs = TRUE to document KF-C10-1). "
     "The state graph is covered edge by edge with histories, each replayed in its own interpreter; every response is compared with the same call "
     "executed alone in a fresh interpreter. spec/SemIdentity.tla models the process-wide action cache against object identity (addresses are reused once an "
-    "object is gone): TLC proves ActionsOfGivenObject for the design as coded (keyed by the object) and refutes the by-address design, whose behaviours "
-    "(New / Drop / Parse with address reuse, achieved by allocating until id() repeats) are replayed into the real code. Generated parser objects are "
-    "driven through every ordered pair of per-call settings; 4-8 threads parse on one shared model under a 1 microsecond switch interval, in warm rounds "
-    "and in cold-start rounds where every thread is held at the entry of Grammar.optimized() until the others are inside (forced overlap).",
-    "Trusted: TLC; the fingerprint/abstraction of responses in harness/apireplay.py. Thread rounds are exploration: one forced overlap point (Grammar.optimized), otherwise free running. "
+    "object is gone) and against the object's own __hash__/__eq__/truth value: TLC proves ActionsOfGivenObject for the cache keyed by the identity of the object "
+    "(which it keeps alive) and refutes the by-address and the by-equality designs (equal objects with different actions, unhashable and falsy objects), whose behaviours "
+    "(New / Drop / Parse; address reuse achieved by allocating until id() repeats) are replayed into the real code. spec/ThreadShare.tla models what threads that parse with ONE "
+    "freshly compiled asmodel model share, one action per critical section (the cached optimized grammar under its lock, the module registry of synthesized classes, the "
+    "builder's constructor registry): TLC proves NoError, OneClassPerName, BuiltOnce, ThreadIndependent and liveness for the required design (get-or-create registry, serialized "
+    "optimized()) and refutes the check-then-act and the unserialized designs; an edge cover of the required design's state graph - every interleaving of the steps of 2 (3) "
+    "threads - is FORCED onto the real code through wrappers that block each thread at every step, with the abstract state (registries, class identities, optimized cache, "
+    "program counters, classes returned) compared after every action. Generated parser objects are "
+    "driven through every ordered pair of per-call settings; 4-8 threads also parse on one shared model free running under a 1 microsecond switch interval, in warm rounds "
+    "and in cold-start rounds where every thread is held at the entry of Grammar.optimized() until the others are inside.",
+    "Trusted: TLC; the fingerprint/abstraction of responses in harness/apireplay.py; the yield-point wrappers of harness/threadreplay.py (their single-thread point sequence is "
+    "checked against the specification's sequential behaviour in every run). Free-running thread rounds are exploration. "
     "Compile-time settings are excluded from the pool (C09 / KF-C09-1).",
-    "TLA+ spec ApiHistory model-checked by TLC (two designs) + state-graph histories replayed against fresh-interpreter responses", "5 C10, 3.7")
+    "TLA+ specs ApiHistory, SemIdentity, ThreadShare model-checked by TLC (required designs proved, as-coded/racy designs refuted) + state-graph histories and forced thread interleavings replayed into the real code", "5 C10, 3.7, 0.5")
 
 add('C07', "PegSem with the model-building action (Cfg.act = model): a rule annotated name::T::Base yields Obj(T, bases, attributes = named elements or "
     "the single attribute ast), builtin type names convert the value; TLC evaluates it on 11 typed grammars x all texts up to the bound; each case is "
